@@ -77,6 +77,7 @@ class Interp:
         self.promoted_cache = {}
         self.type_cache = {}
         self._const_cache = {}
+        self.zst_locals = {}
         self.trace = False
         self.narrowing = True
         self._var_bounds = None
@@ -369,7 +370,14 @@ class Interp:
         if f.name in self.summarize and not self.in_summary:
             if any(isinstance(x, z3.ExprRef) for x in args):
                 return self.summarized_call(f, args)
-        vars = {}
+        zl = self.zst_locals.get(f.name)
+        if zl is None:
+            zl = {}
+            for loc, ty in f.locals.items():
+                m = re.fullmatch(r'\{(closure@[^{}]*)\}', ty.strip())
+                if m: zl[loc] = m.group(1)
+            self.zst_locals[f.name] = zl
+        vars = {loc: Closure(cl, []) for loc, cl in zl.items()} if zl else {}
         fa = f.args
         if len(args) != len(fa):
             raise Unsupported('arity mismatch calling %s: %d args for %d params' % (f.name, len(args), len(fa)))
@@ -547,6 +555,7 @@ class Interp:
         tag = c[0]
         if tag == 'int' or tag == 'bool' or tag == 'str' or tag == 'bytes': return c[1]
         if tag == 'unit': return UNIT
+        if tag == 'arr0': return Arr([])
         if tag == 'path':
             text = strip_generics(c[1])
             ev = self.prog.enum_variant(text)
